@@ -21,6 +21,19 @@ import (
 )
 
 func init() {
+	// C16: a peer that presents a well-formed header of the wrong protocol (or ends its handshake
+	// in any other way) costs nothing but that connection: the listener serves the next peer, the
+	// dialer goes on redialling and attaches to a proper peer
+	vexplore.Register("C16", func(tier string) []*vexplore.Scenario {
+		return []*vexplore.Scenario{{Name: "tcp-aborted-or-mismatched-handshakes-then-peer", Mode: "enum", Reset: kit.ResetGlobals, Body: tcpAborted, NeedCounters: []string{"attached-after-aborted-handshake"}}}
+	})
+	// C02: connections that fail at any stage never keep a later peer out
+	vexplore.Register("C02", func(tier string) []*vexplore.Scenario {
+		return []*vexplore.Scenario{{Name: "tcp-aborted-or-mismatched-handshakes-then-peer", Mode: "enum", Reset: kit.ResetGlobals, Body: tcpAborted, NeedCounters: []string{"attached-after-aborted-handshake"}}}
+	})
+}
+
+func init() {
 	vexplore.Register("C13", func(tier string) []*vexplore.Scenario {
 		d, b := 6, 2
 		if tier == "thorough" {
@@ -467,11 +480,11 @@ func schedAttachDrop() {
 func tcpAborted() {
 	side := kit.ChooseFree(2)
 	n := kit.ChooseFree(9)
-	how := []string{"eof", "reset", "bad-header"}[kit.ChooseFree(3)]
-	if how == "bad-header" && n != 8 {
+	how := []string{"eof", "reset", "bad-header", "wrong-protocol"}[kit.ChooseFree(4)]
+	if (how == "bad-header" || how == "wrong-protocol") && n != 8 {
 		return
 	}
-	if n == 8 && how != "bad-header" {
+	if n == 8 && how != "bad-header" && how != "wrong-protocol" {
 		return
 	}
 	addr := "127.0.0.1:4300"
@@ -482,6 +495,9 @@ func tcpAborted() {
 		b := append([]byte{}, hdr[:n]...)
 		if how == "bad-header" {
 			b[7] = 1
+		}
+		if how == "wrong-protocol" {
+			b[5] ^= 0x10 // a well-formed header of another protocol
 		}
 		h.Feed(b)
 		switch how {
